@@ -137,9 +137,12 @@ def run_shard(shard, tier, seed, wd, res):
         ks = scalars("mixed", rng)
         A = lambda lo, hi: V.lst([V.aff(g, p) for p in pts[lo:hi]])
         K = lambda lo, hi: V.lst([V.RR(k) for k in ks[lo:hi]])
-        for (pl, kl) in ((0, 0), (0, 5), (5, 0), (1, 1), (3, 7), (7, 3), (19, 20), (20, 19), (21, 64), (64, 21), (2, 1), (1, 2), (43, 42), (42, 44)):
+        grid = [(a_, b_) for a_ in range(5) for b_ in range(5)]
+        for (pl, kl) in grid + [(0, 5), (5, 0), (3, 7), (7, 3), (19, 20), (20, 19), (21, 64), (64, 21), (43, 42), (42, 44)]:
             s.op(gp + ".msm", A(0, pl), K(0, kl))
             s.op(gp + ".msm_pre256", A(0, pl), K(0, kl))
+            # the caller's table layout: rest-of-buffer slices filled last table first, rebuilt in place, own-point filler
+            s.op(gp + ".msm_pre256", A(0, pl), K(0, kl), V.n(1 + (pl + kl) % 3))
             for w in (1, 2, 5, 9, 12):
                 s.op(gp + ".msm_pip", A(0, pl), K(0, kl), V.n(w))
         # all-identity points, all-zero scalars
